@@ -119,6 +119,23 @@ class World:
             return LibFn(nm)
         if isinstance(v, (int, float, str, bool)) or v is None:
             return v
+        if isinstance(v, dict) and len(v) <= 64:
+            from .values import GlobalDict
+            d = GlobalDict()
+            d.gname = name
+            for k, x in v.items():
+                kk = self.convert_global('%s.key' % name, k)
+                if isinstance(kk, (LibFn, DType)):
+                    kk = ('libref', kk.name)
+                d[kk] = self.convert_global('%s[%r]' % (name, k), x)
+            return d
+        if isinstance(v, (list, tuple)) and len(v) <= 64 and all(isinstance(x, (int, float, str, bool, type(None))) for x in v):
+            from .values import GlobalList
+            if isinstance(v, tuple):
+                return tuple(v)
+            l = GlobalList(v)
+            l.gname = name
+            return l
         if callable(v):
             nm = getattr(v, '__name__', None)
             mod = getattr(v, '__module__', '') or ''
@@ -171,6 +188,11 @@ class World:
                 raise Unsupported("method %s.%s" % (obj.cls, name))
             return f(fr, obj, *args, **kwargs)
         tn = type(obj).__name__
+        from .values import GlobalDict, GlobalList
+        if isinstance(obj, (GlobalDict, GlobalList)):
+            tn = 'dict' if isinstance(obj, dict) else 'list'
+            if name in ('update', 'pop', 'setdefault', 'clear', 'popitem', 'append', 'extend', 'insert', 'remove', 'sort', 'reverse'):
+                fr.ctx.oblige('frame:no-write-to-module-state:%s' % obj.gname, False, 'frame')
         if O.is_sym(obj) or isinstance(obj, (int, float)):
             tn = 'scalar'
         f = self.methods.get(tn + '.' + name)
